@@ -93,14 +93,19 @@ def run(args):
     if args.mutants:
         patches = sorted(glob.glob(os.path.join(VERIF, "mutants", "*.diff")))
         patches += sorted(glob.glob(os.path.join(VERIF, "seeded", "*", "patch.diff")))
-        for p in patches:
+        import re
+        import concurrent.futures
+        only = getattr(args, "only", None)
+        if only:
+            patches = [p for p in patches if re.search(only, os.path.relpath(p, VERIF))]
+
+        def one(p):
             props = target_props(p)
             tmp = tempfile.mkdtemp(prefix="selftest_repo_", dir="/tmp")
             try:
                 subprocess.run(["cp", "-r", os.path.join(args.repo, "."), tmp], check=True)
                 if subprocess.run(["git", "-C", tmp, "apply", p]).returncode != 0:
-                    print("%-60s PATCH DOES NOT APPLY" % os.path.relpath(p, VERIF)); bad += 1
-                    continue
+                    return "%-60s PATCH DOES NOT APPLY" % os.path.relpath(p, VERIF), 1
                 detected = []
                 for prop in props:
                     r = subprocess.run([os.path.join(VERIF, "run.py"), "check", prop, "--quick", "--repo", tmp],
@@ -108,18 +113,21 @@ def run(args):
                     if r.returncode == 1 and b"VIOLATION property=" in r.stdout:
                         detected.append(prop)
                         break
-                print("%-60s %s" % (os.path.relpath(p, VERIF), "detected by " + detected[0] if detected
-                                     else "NOT DETECTED by " + ",".join(props)))
-                if not detected:
-                    bad += 1
+                return ("%-60s %s" % (os.path.relpath(p, VERIF), "detected by " + detected[0] if detected
+                                       else "NOT DETECTED by " + ",".join(props)), 0 if detected else 1)
             finally:
                 shutil.rmtree(tmp, ignore_errors=True)
+
+        with concurrent.futures.ThreadPoolExecutor(max_workers=max(1, int(getattr(args, "jobs", 1) or 1))) as ex:
+            for line, b in ex.map(one, patches):
+                print(line, flush=True)
+                bad += b
     print("SELFTEST %s" % ("OK" if bad == 0 else "FAILED (%d)" % bad))
     return 0 if bad == 0 else 1
 
 
 PREFIX_PROPS = {"D1": ["C03"], "D2": ["C10"], "D3": ["C07"], "D4": ["C08"], "D5": ["C17"], "D6": ["C09"],
-                "D7": ["C15"], "D8": ["C06"], "D9": ["C15"]}
+                "D7": ["C15"], "D8": ["C06"], "D9": ["C15"], "D10": ["C06"]}
 
 
 def target_props(path):
